@@ -1038,7 +1038,31 @@ func (h *hist) govTx(t *rapid.T) (txSpec, bool) {
 		return sdkmath.LegacyMustNewDecFromStr(pick(t, label, choices))
 	}
 	var msg sdk.Msg
-	switch rapid.IntRange(0, 3).Draw(t, "govmod") {
+	switch rapid.IntRange(0, 4).Draw(t, "govmod") {
+	case 4:
+		// htlc: the cross-chain asset is delisted, listed again, paused, or its limits are changed
+		p := k.HTLC.GetParams(ctx)
+		base := htlctypes.AssetParam{
+			Denom: HtltDenom, SupplyLimit: htlctypes.SupplyLimit{Limit: sdkmath.NewInt(1_000_000_000), TimeLimited: false, TimePeriod: time.Hour, TimeBasedLimit: sdkmath.ZeroInt()},
+			Active: true, DeputyAddress: h.addr(1), FixedFee: sdkmath.NewInt(1), MinSwapAmount: sdkmath.NewInt(2), MaxSwapAmount: sdkmath.NewInt(1_000_000),
+			MinBlockLock: 50, MaxBlockLock: 100,
+		}
+		switch pick(t, "htlcparams", []string{"delist", "list", "pause", "lowlimit", "timelimit"}) {
+		case "delist":
+			p.AssetParams = nil
+		case "list":
+			p.AssetParams = []htlctypes.AssetParam{base}
+		case "pause":
+			base.Active = false
+			p.AssetParams = []htlctypes.AssetParam{base}
+		case "lowlimit":
+			base.SupplyLimit.Limit = sdkmath.NewInt(int64(pick(t, "limit", []int{1, 100, 5000})))
+			p.AssetParams = []htlctypes.AssetParam{base}
+		default:
+			base.SupplyLimit.TimeLimited, base.SupplyLimit.TimePeriod, base.SupplyLimit.TimeBasedLimit = true, time.Minute, sdkmath.NewInt(3000)
+			p.AssetParams = []htlctypes.AssetParam{base}
+		}
+		msg = &htlctypes.MsgUpdateParams{Authority: gov, Params: p}
 	case 0:
 		p := k.Token.GetParams(ctx)
 		p.IssueTokenBaseFee = sdk.NewInt64Coin("stake", int64(pick(t, "basefee", []int{60000, 120000, 1000, 7})))
